@@ -685,6 +685,147 @@ static void op_spawn_round(const Op& op) {
     if (!X->plan->nothread && ld32(1024) - cnt0 != okc) V("thread", "thread-spawn:start-count", "wasi_thread_start ran " + std::to_string(ld32(1024) - cnt0) + " times for " + std::to_string(okc) + " successful spawns");
 }
 
+// ---------------------------------------------------------------- parallel phase
+// Threads started by thread-spawn enter the WASI host concurrently. Here 2-3 simulated tasks issue calls at the same time
+// on DISJOINT files (par_rw) or DISJOINT names below one pre-opened directory (par_path), so every call's result is
+// independent of the interleaving and the kernel (same call on the mirror tree, made atomically by the harness) stays
+// the reference. Only calls that do not change the descriptor table are issued concurrently (the table itself makes
+// no thread-safety promise); files are opened before and stay open after the phase.
+static uint64_t raw_call(const std::string& abi, const std::string& name, std::initializer_list<uint64_t> args) {
+    auto it = X->disp.find(abi + "_" + name);
+    if (it == X->disp.end()) { fprintf(stderr, "simwasi: no export %s_%s\n", abi.c_str(), name.c_str()); _exit(96); }
+    unsigned long long a[10] = {0}; int i = 0; for (uint64_t v : args) a[i++] = v;
+    sim::sut_enter();
+    uint64_t r = it->second->fn(X->inst, a);
+    sim::sut_leave();
+    return r & 0xFFFFFFFFull;
+}
+struct ParTask { int id; std::string abi; uint64_t seed; int nops; bool rw; int64_t fd; int64_t dirfd; std::string mdir; std::string prefix; };
+static std::vector<ParTask> g_par;
+static void par_errno(const ParTask& t, const std::string& call, uint32_t got, int host_errno, const std::string& ctx) {
+    int want = wasi_errno_of(host_errno);
+    if (want == -1) { if (got == 0) V("concurrent", call + ":success-instead-of-error", "task " + std::to_string(t.id) + " " + ctx); return; }
+    if ((int)got != want) V("concurrent", call + ":" + wasi_errno_name(want) + "-expected-got-" + wasi_errno_name((int)got), "task " + std::to_string(t.id) + ": " + call + "(" + t.abi + ") returned " + std::to_string(got) + " while other tasks were inside the host; the same call on the mirror tree gives errno " + std::to_string(host_errno) + " " + ctx);
+}
+static void par_rw_ops(ParTask& t) {
+    Rng r; r.seed(t.seed);
+    MFd* e = entry(t.fd); if (!e || !e->live || e->mfd < 0) return;
+    int mfd = e->mfd; uint32_t counter = 0;
+    for (int k = 0; k < t.nops && !S->nviol; k++) {
+        sim::yield(Y_OP, (uint64_t)t.id);
+        uint32_t kind = r.below(6);
+        int nseg = 1 + (int)r.below(3); std::vector<uint32_t> lens; uint32_t total = 0;
+        for (int q = 0; q < nseg; q++) { uint32_t l = r.below(4) == 0 ? 0 : 1 + r.below(40); lens.push_back(l); total += l; }
+        uint32_t buf = galloc(total + 8, 1), iov = galloc(8 * (uint32_t)nseg, 4), res = galloc(8, 8);
+        uint32_t o = 0; for (int q = 0; q < nseg; q++) { st32(iov + 8 * (uint32_t)q, buf + o); st32(iov + 8 * (uint32_t)q + 4, lens[(size_t)q]); o += lens[(size_t)q]; }
+        st32(res, 0xDEADBEEF);
+        struct stat stt; __real_fstat(mfd, &stt); uint64_t size = (uint64_t)stt.st_size;
+        uint64_t off = r.below(3) == 0 ? size : r.below((uint32_t)size + 8);
+        std::string what;
+        if (kind <= 1) {            // fd_write / fd_pwrite
+            std::vector<uint8_t> data(total); for (uint32_t i = 0; i < total; i++) data[i] = (uint8_t)('A' + t.id * 8 + (counter++ % 7));
+            if (total) memcpy(X->mem + buf, data.data(), total);
+            bool pos = kind == 1; what = pos ? "fd_pwrite" : "fd_write";
+            uint32_t rr = pos ? (uint32_t)raw_call(t.abi, "fd_pwrite", {(uint64_t)t.fd, iov, (uint64_t)nseg, off, res}) : (uint32_t)raw_call(t.abi, "fd_write", {(uint64_t)t.fd, iov, (uint64_t)nseg, res});
+            ssize_t mr = pos ? ::pwrite(mfd, data.data(), total, (off_t)off) : ::write(mfd, data.data(), total); int merr = mr < 0 ? errno : 0;
+            par_errno(t, what, rr, merr, "");
+            if (rr == 0 && mr >= 0 && ld32(res) != (uint32_t)mr) V("concurrent", what + ":count", "task " + std::to_string(t.id) + ": " + what + " of " + std::to_string(total) + " bytes stored count " + std::to_string(ld32(res)) + ", POSIX reference " + std::to_string((long)mr));
+        } else if (kind <= 3) {     // fd_read / fd_pread
+            bool pos = kind == 3; what = pos ? "fd_pread" : "fd_read";
+            memset(X->mem + buf, 0x5A, total + 8);
+            uint32_t rr = pos ? (uint32_t)raw_call(t.abi, "fd_pread", {(uint64_t)t.fd, iov, (uint64_t)nseg, off, res}) : (uint32_t)raw_call(t.abi, "fd_read", {(uint64_t)t.fd, iov, (uint64_t)nseg, res});
+            std::vector<uint8_t> ref(total + 1);
+            ssize_t mr = pos ? ::pread(mfd, ref.data(), total, (off_t)off) : ::read(mfd, ref.data(), total); int merr = mr < 0 ? errno : 0;
+            par_errno(t, what, rr, merr, "");
+            if (rr == 0 && mr >= 0) {
+                if (ld32(res) != (uint32_t)mr) V("concurrent", what + ":count", "task " + std::to_string(t.id) + ": stored count " + std::to_string(ld32(res)) + ", POSIX reference " + std::to_string((long)mr));
+                else if (mr > 0 && memcmp(X->mem + buf, ref.data(), (size_t)mr) != 0) V("concurrent", what + ":data", "task " + std::to_string(t.id) + ": bytes read differ from the POSIX reference");
+                for (uint32_t i = (uint32_t)mr; i < total + 8; i++) if (X->mem[buf + i] != 0x5A) { V("concurrent", what + ":wrote-past-count", "task " + std::to_string(t.id)); break; }
+            }
+        } else if (kind == 4) {     // fd_seek to an absolute offset
+            what = "fd_seek"; uint32_t wh = t.abi == "p1" ? 0 : 2;
+            uint32_t rr = (uint32_t)raw_call(t.abi, "fd_seek", {(uint64_t)t.fd, off, wh, res});
+            off_t mr = __real_lseek(mfd, (off_t)off, SEEK_SET); int merr = mr == (off_t)-1 ? errno : 0;
+            par_errno(t, what, rr, merr, "");
+            if (rr == 0 && mr >= 0 && ld64(res) != (uint64_t)mr) V("concurrent", "fd_seek:offset", "task " + std::to_string(t.id));
+        } else {                    // fd_tell
+            what = "fd_tell";
+            uint32_t rr = (uint32_t)raw_call(t.abi, "fd_tell", {(uint64_t)t.fd, res});
+            off_t mr = __real_lseek(mfd, 0, SEEK_CUR);
+            if (rr != 0) V("concurrent", "fd_tell:failed", "task " + std::to_string(t.id) + " returned " + std::to_string(rr));
+            else if (ld64(res) != (uint64_t)mr) V("concurrent", "fd_tell:offset", "task " + std::to_string(t.id) + ": " + std::to_string(ld64(res)) + ", POSIX reference " + std::to_string((long long)mr));
+        }
+        log_event(what.c_str(), (uint64_t)t.id, (uint64_t)k);
+        S->par_calls++;
+    }
+}
+static void par_path_ops(ParTask& t) {
+    Rng r; r.seed(t.seed);
+    std::vector<std::string> names; for (int i = 0; i < 5; i++) names.push_back(t.prefix + std::string(1, (char)('a' + i)) + (i == 3 ? ".long-name-with-more-characters-than-the-others" : ""));
+    for (int k = 0; k < t.nops && !S->nviol; k++) {
+        sim::yield(Y_OP, (uint64_t)t.id);
+        uint32_t kind = r.below(8);
+        const std::string& a = names[r.below(5)]; const std::string& b = names[r.below(5)];
+        std::string ma = t.mdir + "/" + a, mb = t.mdir + "/" + b;
+        uint32_t pa = gput(a), pb = gput(b); uint64_t D = (uint64_t)t.dirfd;
+        std::string what; uint32_t rr = 0; int mr = 0, merr = 0;
+        if (kind == 0) { what = "path_create_directory"; rr = (uint32_t)raw_call(t.abi, what, {D, pa, a.size()}); mr = __real_mkdir(ma.c_str(), 0777); merr = mr ? errno : 0; }
+        else if (kind == 1) { what = "path_remove_directory"; rr = (uint32_t)raw_call(t.abi, what, {D, pa, a.size()}); mr = __real_rmdir(ma.c_str()); merr = mr ? errno : 0; }
+        else if (kind == 2) { what = "path_unlink_file"; rr = (uint32_t)raw_call(t.abi, what, {D, pa, a.size()}); mr = __real_unlink(ma.c_str()); merr = mr ? errno : 0; }
+        else if (kind <= 4) { what = "path_rename"; rr = (uint32_t)raw_call(t.abi, what, {D, pa, a.size(), D, pb, b.size()}); mr = __real_rename(ma.c_str(), mb.c_str()); merr = mr ? errno : 0; }
+        else if (kind == 5) { what = "path_symlink"; std::string tgt = "target-of-" + a; uint32_t pt = gput(tgt); rr = (uint32_t)raw_call(t.abi, what, {pt, tgt.size(), D, pb, b.size()}); mr = __real_symlink(tgt.c_str(), mb.c_str()); merr = mr ? errno : 0; }
+        else if (kind == 6) {
+            what = "path_readlink"; uint32_t bp = galloc(128, 1), res = galloc(4, 4); memset(X->mem + bp, 0x5A, 128); st32(res, 0);
+            rr = (uint32_t)raw_call(t.abi, what, {D, pa, a.size(), bp, 100, res});
+            char lb[128]; ssize_t n = __real_readlink(ma.c_str(), lb, 100); merr = n < 0 ? errno : 0;
+            if (rr == 0 && n >= 0 && (ld32(res) != (uint32_t)n || memcmp(X->mem + bp, lb, (size_t)n) != 0)) V("concurrent", "path_readlink:target", "task " + std::to_string(t.id) + ": link " + a);
+        } else {
+            what = "path_filestat_get"; uint32_t bp = galloc(64, 8);
+            rr = (uint32_t)raw_call(t.abi, what, {D, 1, pa, a.size(), bp});      // lookup flag: follow symlinks (stat), as in the sequential workload
+            struct stat st; mr = __real_stat(ma.c_str(), &st); merr = mr ? errno : 0;
+        }
+        par_errno(t, what, rr, merr, "name " + a + (what == "path_rename" || what == "path_symlink" ? " -> " + b : ""));
+        log_event(what.c_str(), (uint64_t)t.id, (uint64_t)k);
+        S->par_calls++;
+    }
+}
+static void* par_task_main(void* a) { ParTask& t = g_par[(size_t)(intptr_t)a]; if (t.rw) par_rw_ops(t); else par_path_ops(t); return nullptr; }
+static void op_par(const Op& op) {
+    bool rw = op.name == "par_rw"; int nt = (int)op.get("tasks", 2);
+    // first pre-opened directory
+    int64_t dirfd = -1; for (size_t k = 3; k < X->tab.size(); k++) if (X->tab[k].live && X->tab[k].preopen) { dirfd = (int64_t)k; break; }
+    if (dirfd < 0) return;
+    MFd dir = *entry(dirfd);
+    g_par.clear();
+    for (int t = 0; t < nt; t++) {
+        ParTask pt; pt.id = t; pt.abi = ((op.get("abimask") >> t) & 1) ? "u" : "p1"; pt.seed = (uint64_t)op.get("pseed") * 31 + (uint64_t)t; pt.nops = (int)op.get("n", 6); pt.rw = rw; pt.fd = -1; pt.dirfd = dirfd; pt.mdir = dir.mpath;
+        pt.prefix = "par" + std::to_string(op.get("gen")) + "t" + std::to_string(t) + "_";
+        if (rw) {
+            // sequential set-up through the ordinary executor: create and open the task's own file
+            Op o; o.name = "path_open"; o.abi = pt.abi; o.path = pt.prefix + "file"; o.n["dirfd"] = dirfd; o.n["oflags"] = 1; o.n["rights"] = (int64_t)(R_READ | R_WRITE | R_SEEK | R_TELL);
+            size_t before = X->tab.size();
+            X->calls.clear(); g_callcount.clear();
+            op_path_open(o);
+            if (S->nviol) return;
+            for (size_t k = 3; k < X->tab.size(); k++) if (X->tab[k].live && X->tab[k].regpath == dir.ppath + "/" + o.path) pt.fd = (int64_t)k;
+            (void)before;
+            if (pt.fd < 0) return;
+        } else {
+            // two files per task exist beforehand in both trees
+            for (const char* n : {"a", "c"}) { for (const std::string& base : {dir.ppath, dir.mpath}) { int fd = __real_open((base + "/" + pt.prefix + n).c_str(), O_WRONLY | O_CREAT, 0644); if (fd >= 0) { if (::write(fd, "x", 1)) {} __real_close(fd); } } }
+        }
+        g_par.push_back(pt);
+    }
+    g_cur_op = nullptr; g_calls = nullptr;
+    sim::sut_enter();
+    for (int t = 0; t < nt; t++) sim::spawn(par_task_main, (void*)(intptr_t)t);
+    sim::join_all();
+    sim::sut_leave();
+    if (S->nviol) return;
+    if (rw) for (auto& t : g_par) check_position(op, t.fd, "concurrent-phase");
+    compare_trees(std::string("after the concurrent ") + (rw ? "read/write" : "path") + " phase");
+}
+
 static void exec_op(const Op& op) {
     begin_op(op);
     const std::string& n = op.name;
@@ -702,6 +843,7 @@ static void exec_op(const Op& op) {
     else if (n == "random_get") op_random(op);
     else if (n == "proc_exit") op_proc_exit(op);
     else if (n == "spawn_round") op_spawn_round(op);
+    else if (n == "par_rw" || n == "par_path") op_par(op);
     else { fprintf(stderr, "simwasi: unknown op %s\n", n.c_str()); _exit(96); }
     check_canaries();
     S->ops_done++;
